@@ -1,5 +1,7 @@
 import Uflow.Lemmas.PSend
 import Uflow.Lemmas.PRecvRun
+import Uflow.Lemmas.AckQInv
+import Uflow.Lemmas.AckQWitness
 
 /-! # C06 — receiver memory bounded; senders respect the advertised limits (theorems being added) -/
 
@@ -143,5 +145,100 @@ example : (match PRecv.run (PRecv.init 8 exBase 6000) exScript with
 example : ∃ s', PRecv.run (PRecv.init 8 exBase 6000) exScript = .ok s' ∧ (0 : Nat) < 8 ∧ exBase < 2^20 := by
   obtain ⟨s', h, -⟩ := PRecv.run_init_inv 8 exBase 6000 (by decide) (by decide) exScript
   exact ⟨s', h, by decide, by decide⟩
+
+/-! ## Frame acknowledgement queue (`FrameQ.AckQ`, `frame_ack_queue.rs`)
+
+The receiving half connection keeps a queue of acknowledgement groups (`AckGroup`: a base frame id and a 32-bit
+mask) that have not been sent yet. The queue is driven by `AckQB.Op`: `markSeen id nonce` (`mark_seen`, once per
+received data frame, any `id`), `pop` (`emit_ack_frames` takes the first group), `resync id` (`resynchronize`,
+once per sync frame carrying a frame id, any `id`). `AckQB.run` folds `AckQB.step` over a list of operations.
+
+Frame ids are `u32` with wrapping arithmetic. The bound below needs one hypothesis about wrap-around, stated on
+the ghost-instrumented queue `AckQB.TQ` (the same queue where the window base and every pending group also
+carry their unwrapped, true id — `C06_ackq_ghost_erase`): an accepted data frame is less than `2^32` ahead (true
+distance) of every group still pending (`AckQB.NoWrap`). `C06_ackq_unbounded_under_wrap_witness` shows that the
+hypothesis cannot be dropped; `C06_ackq_bounded_sync_budget` replaces it by a ghost-free condition. -/
+
+open Uflow.FrameQ Uflow.AckQB in
+/-- The instrumented queue is the model queue plus ghost tags: forgetting the tags commutes with every run. -/
+theorem C06_ackq_ghost_erase (size base : Nat) (ops : List AckQB.Op) :
+    ((TQ.init size base).run ops).erase = AckQB.run (AckQ.init size base) ops := by
+  rw [run_erase]; rfl
+
+open Uflow.FrameQ Uflow.AckQB in
+/-- C06 (4): whatever data / sync frames arrive and whenever acknowledgements are sent, the number of pending
+acknowledgement groups never exceeds `⌈size / 32⌉ = (size - 1) / 32 + 1` (128 for the library's window of 4096
+frames), provided no accepted data frame is `2^32` or more ahead of a group still pending (`NoWrap`). `size` is
+the receive window size (`0 < size ≤ 2^31`). -/
+theorem C06_ackq_bounded (size base : Nat) (h0 : 0 < size) (h1 : size ≤ 2^31) (ops : List AckQB.Op)
+    (hnw : NoWrap (TQ.init size base) ops) :
+    (AckQB.run (AckQ.init size base) ops).entries.length ≤ (size - 1) / 32 + 1 := by
+  have hinv := (Inv.init size base).run h0 h1 ops hnw
+  rw [← C06_ackq_ghost_erase, erase_length]
+  exact hinv.length_le h0
+
+open Uflow.FrameQ Uflow.AckQB in
+/-- C06 (4'), without ghost state: the same bound for every run in which the number `r` of sync frames
+(`resync` operations) satisfies `(r + 2) * size ≤ 2^32` — in particular for every run without sync frames, and
+for the library's window size 4096 for every run with at most `2^20 - 2` sync frames. (Each sync frame moves the
+window by at most `size`, so the id space cannot be walked around.) -/
+theorem C06_ackq_bounded_sync_budget (size base : Nat) (h0 : 0 < size) (h1 : size ≤ 2^31) (ops : List AckQB.Op)
+    (hb : (ops.countP isResync + 2) * size ≤ 2^32) :
+    (AckQB.run (AckQ.init size base) ops).entries.length ≤ (size - 1) / 32 + 1 := by
+  refine C06_ackq_bounded size base h0 h1 ops ?_
+  refine noWrap_of_budget (Inv.init size base) h0 h1 ops 0 (near_init size base 0) ?_
+  rw [Nat.add_mul] at hb; omega
+
+open Uflow.FrameQ Uflow.AckQB in
+/-- Known finding F3 (the defect repaired by the `while let Some(first_entry) = …` loop of `mark_seen`): with
+`mark_seen` as it was (`markSeenOld`), `n` data frames whose ids are 32 apart (`farFrames`), all inside the
+window when they arrive, leave `n` pending groups — for every `n`, window size `≥ 32` and window base. -/
+theorem C06_ackq_unbounded_without_drop_witness (size base : Nat) (h : 32 ≤ size) (n : Nat) :
+    (runOld (AckQ.init size base) (farFrames base n)).entries.length = n :=
+  (runOld_farFrames size base h n).len
+
+open Uflow.FrameQ Uflow.AckQB in
+/-- The wrap-around hypothesis of `C06_ackq_bounded` is necessary, also after the repair: `wrapOps size n` is a
+data frame with id 0 followed by `n` laps, each lap being a data frame with id 32, then `(2^32 - 33) / size` sync
+frames that walk the receive window once around the 32-bit id space, then a data frame with id 0 again. The
+frame that comes back to id 0 is not a whole window ahead of the *first* pending group (wrapped distance 0), so
+nothing is dropped, and it is not within 32 of the *last* one, so a new group is appended: after `n` laps
+`2 n + 1` groups are pending, for every window size `33 ≤ size ≤ 2^31`. (About `2^20` sync frames per lap for the
+library's window size, with no acknowledgement frame sent meanwhile.) -/
+theorem C06_ackq_unbounded_under_wrap_witness (size : Nat) (h0 : 33 ≤ size) (h1 : size ≤ 2^31) (n : Nat) :
+    (AckQB.run (AckQ.init size 0) (wrapOps size n)).entries.length = 2 * n + 1 :=
+  (wrapOps_inv size h0 h1 n).len
+
+/-- A hostile script for the non-vacuity checks: window of 64 frames starting three ids before the 32-bit
+wrap-around; ids 32 apart, a duplicate, an id outside the window, sync frames (one of them out of range), pops. -/
+def exAckOps : List AckQB.Op :=
+  [ .markSeen (2^32 - 3) true, .markSeen (2^32 - 2) false, .markSeen (2^32 - 2) true, .markSeen 29 true,
+    .markSeen 5000 false, .resync 70, .markSeen 93 false, .pop, .markSeen 125 true, .markSeen 157 true,
+    .resync (2^31), .resync 200, .markSeen 263 false, .pop, .pop, .pop, .pop, .markSeen 264 true ]
+
+open Uflow.FrameQ Uflow.AckQB in
+/-- Non-vacuity of `C06_ackq_bounded`: the hypotheses hold for the script, -/
+example : (0 : Nat) < 64 ∧ 64 ≤ 2^31 ∧ NoWrap (TQ.init 64 (2^32 - 3)) exAckOps := by decide +kernel
+
+open Uflow.FrameQ Uflow.AckQB in
+/-- the bound `(64 - 1) / 32 + 1 = 2` is reached on the way and the queue is not empty at the end. -/
+example : ((AckQB.run (AckQ.init 64 (2^32 - 3)) (exAckOps.take 10)).entries.length = 2 ∧
+    (AckQB.run (AckQ.init 64 (2^32 - 3)) exAckOps).entries.length = 1) := by decide +kernel
+
+open Uflow.FrameQ Uflow.AckQB in
+/-- Non-vacuity of `C06_ackq_bounded_sync_budget`: three sync frames, window 64. -/
+example : (exAckOps.countP isResync + 2) * 64 ≤ 2^32 := by decide +kernel
+
+open Uflow.FrameQ Uflow.AckQB in
+/-- The wrap witness violates exactly the ghost hypothesis (window `2^31`: one sync frame per lap), and the
+queue it builds, `[0, 32, 0]`, is not one the no-wrap invariant allows. -/
+example : ¬ NoWrap (TQ.init (2^31) 0) (wrapOps (2^31) 1) ∧
+    (AckQB.run (AckQ.init (2^31) 0) (wrapOps (2^31) 1)).entries.map (·.baseId) = [0, 32, 0] := by decide +kernel
+
+open Uflow.FrameQ Uflow.AckQB in
+/-- The F3 witness on a concrete instance: 5 frames, 5 groups, window 64 (bound 2 after the repair). -/
+example : (runOld (AckQ.init 64 7) (farFrames 7 5)).entries.map (·.baseId) = [7, 39, 71, 103, 135] ∧
+    ((farFrames 7 5).foldl (fun q id => q.markSeen id false) (AckQ.init 64 7)).entries.map (·.baseId) = [103, 135] := by
+  decide +kernel
 
 end Uflow.Props.C06
